@@ -248,10 +248,10 @@ pub open spec fn other_currency(t: &xmlnode::TransactionDetails) -> Option<xmlno
 }
 """),
         U("callsite:import.detail_in_another_currency", CA, [r"pub fn import<R>"], fn="detail_transfer", no_canary=True,
-          slice=r"(if let Some\(amount_details\) = transaction\.amount_details\.as_ref\(\) \{[\s\S]*?\n                \})\s*add_charges\(&mut txn, config, &entry\.charges\)\?;\s*add_charges\(&mut txn, config, &transaction\.charges\)\?;", slice_count=1, slice_raw=True,
+          slice=r"for entry in entries \{\s*((?:(?://[^\n]*\n\s*)|(?:let \w+ = [^;]*;\s*))*)[\s\S]*?(if let Some\(amount_details\) = transaction\.amount_details\.as_ref\(\) \{[\s\S]*?\n                \})\s*add_charges\(&mut txn, config, &entry\.charges\)\?;\s*add_charges\(&mut txn, config, &transaction\.charges\)\?;", slice_count=1, slice_raw=True, slice_groups="all",
           rewrites=[("R24-std-model", "re:if (transaction\\.amount) != (amount_details\\.transaction\\.amount) \\{", "if amount_ne(&\\1, &\\2) {", 1),
                     ("R24-std-model", "exchange.source_currency.clone()", "string_clone(&exchange.source_currency)", 1), ("R24-std-model", "exchange.target_currency.clone()", "string_clone(&exchange.target_currency)", 1)],
-          slice_template="""fn detail_transfer(txn: &mut Txn, transaction: &xmlnode::TransactionDetails) -> (r: Result<(), ImportError>)
+          slice_template="""fn detail_transfer(txn: &mut Txn, entry: &xmlnode::Entry, transaction: &xmlnode::TransactionDetails) -> (r: Result<(), ImportError>)
     ensures
         // C18: what moves the ACCOUNT is never touched by the currency details of a record
         final(txn).amount == old(txn).amount, final(txn).date == old(txn).date, final(txn).balance == old(txn).balance,   // @import.currency_details_never_change_the_account_posting
